@@ -241,6 +241,54 @@ func runC09(c *an.Ctx) {
 	}
 	c.MinCount("R2", "writers of HIGHEST_SEVERITY", nHS, 2)
 
+	// MATCHED_VARS describes the matches of the rule being evaluated: before every rule it is emptied, under no
+	// condition other than "it is not empty" (a leftover of the previous rule — or of the previous phase — would be
+	// read by a chained link or a rule targeting MATCHED_VARS as if it were its own)
+	if m := buildEvalModel(c, "R2"); m != nil {
+		var resets []ssa.Instruction
+		an.Instrs(m.fn, func(in ssa.Instruction) {
+			cc := an.CallOf(in)
+			if cc == nil || cc.StaticCallee() == nil || cc.StaticCallee().Name() != "Reset" || len(cc.Args) == 0 || !m.loop.Blocks[in.Block()] {
+				return
+			}
+			if strings.HasSuffix(tempName.ReplaceAllString(an.Expr(cc.Args[0]), ""), ".variables.matchedVars") {
+				resets = append(resets, in)
+			}
+		})
+		if len(resets) == 0 {
+			c.Bad("R2", "Eval empties MATCHED_VARS before each rule", m.fn.Pos(), "the rule loop no longer resets MATCHED_VARS before evaluating a rule")
+		} else {
+			var body *ssa.BasicBlock
+			for _, sx := range m.loop.Header.Succs {
+				if m.loop.Blocks[sx] && sx != m.loop.Header {
+					body = sx
+				}
+			}
+			w := an.FindPath(an.PathQuery{Fn: m.fn, StartBlock: body,
+				Stop:   func(x ssa.Instruction) bool { return x == resets[0] || len(resets) > 1 && x == resets[1] },
+				Target: func(x ssa.Instruction) bool { return x == m.call },
+				PruneEdge: func(b *ssa.BasicBlock, si int) bool {
+					if b.Succs[si] == m.loop.Header {
+						return true
+					}
+					ifi, ok := b.Instrs[len(b.Instrs)-1].(*ssa.If)
+					if !ok {
+						return false
+					}
+					for _, a := range an.CondAtoms(ifi.Cond, si == 0) {
+						if strings.Contains(a.L, ".variables.matchedVars") && (strings.Contains(a.L, "len(") || strings.Contains(a.L, ".Len()")) && (a.Op == "<=" || a.Op == "==" || a.Op == "<") {
+							return true // nothing to reset
+						}
+					}
+					return false
+				}})
+			if w != nil {
+				c.Bad("R2", "Eval empties MATCHED_VARS before each rule", resets[0].Pos(), "a rule can be evaluated without MATCHED_VARS having been emptied although it is not empty: a chained link or a rule targeting MATCHED_VARS is then evaluated over what an earlier rule (possibly of the previous phase) matched", c.P.TrailString(w)...)
+			} else {
+				c.Ok("R2", "Eval empties MATCHED_VARS before each rule", resets[0].Pos(), "every path to r.Evaluate passes the reset or the 'already empty' edge")
+			}
+		}
+	}
 	// MATCHED_VARS / MATCHED_VARS_NAMES accumulate one entry per match: the only mutators used on them are
 	// Add (one more entry) and Reset (new rule); an overwriting write collapses matches that share a name.
 	nMV := 0
